@@ -7,9 +7,10 @@ Quantifiers: every regular expression of the modelled RE2 subset, every text, ev
 (any subset of fields given), every identifier, every call site of every form.
 -/
 import Argot.Proofs.CodeId
+import Argot.Proofs.Entry
 
 namespace Argot.C04
-open Argot.Regex Argot.CodeId
+open Argot.Regex Argot.CodeId Argot.Entry
 
 /-! ## 1. Regular expressions: the matcher decides unanchored search -/
 
@@ -102,5 +103,191 @@ example : evalConjR (resOf [(.method, .ok (.cat (.cat .bol (.chr 'F')) .eol))]) 
     conjTable = .val true := by decide
 /-- kinds must be equal -/
 example : evalConjR (resOf []) { kind := "store" } { meth := "F" } conjTable = .val false := by decide
+
+/-! ## 3. Code locations: which identifiers the analyses build, and when that is what the property says
+
+`Site` is a source-level call (form × Call/Go/Defer × enclosing function × possible callees), `factsOf` its SSA
+shape (checked against the real SSA for every generated site), `entryCids` / `sinkCids` / `argCids` /
+`nodeCids` the identifiers built by `IsEntrypointNode`, `IsMatchingCodeIDWithCallee`, `isMatchingCodeID`
+(compared with the identifiers recorded from the real functions). -/
+
+/-- **Full statement** (entry points: sources, backtrace points): a call site is an entry point exactly when some
+specification matches one of its possible callees (package path, name, receiver, context, value-match). -/
+def isEntry_iff_statement : Prop :=
+  ∀ (specs : List CodeId) (s : Site), specsOk specs = true → (isEntry specs s = true ↔ ShouldIdentify specs s)
+
+/-- What holds on the current code: plain calls (`Call`, not `Go`/`Defer`) of a statically known function that is not
+also used as a value, or of a method on a concrete receiver; specifications without value-match (and without
+receiver for methods). All package layouts, contexts (also inside closures), patterns. -/
+theorem isEntry_iff_partial (specs : List CodeId) (s : Site) (hok : specsOk specs = true)
+    (hd : entryDomain specs s = true) : isEntry specs s = true ↔ ShouldIdentify specs s := by
+  simp only [entryDomain, Bool.and_eq_true, beq_iff_eq, Bool.or_eq_true, Bool.not_eq_true', List.all_eq_true] at hd
+  obtain ⟨⟨hk, hf⟩, hs⟩ := hd
+  have key : ∃ cid : CodeId, entryCids true (factsOf s) = [cid] ∧ possibleCallees s = [s.callee] ∧
+      ∀ sp ∈ specs, (Matches sp cid ↔ Matches sp (truthCid s s.callee)) := by
+    rcases hf with ⟨⟨hform, hat⟩, hr⟩ | hform
+    · refine ⟨{ ctx := s.parent, pkg := s.callee.pkgPath, meth := s.callee.name }, ?_, ?_, ?_⟩
+      · simp [entryCids, factsOf, hform, hk, hat]
+      · simp [possibleCallees, hform]
+      · intro sp hsp
+        apply matches_congr
+        · intro f hf
+          simp only [specFields, List.mem_cons, List.not_mem_nil, or_false] at hf
+          rcases hf with rfl | rfl | rfl | rfl | rfl | rfl | rfl <;>
+            simp [CodeId.get, truthCid, hr, (hs sp hsp).1]
+        · rfl
+    · refine ⟨{ ctx := s.parent, pkg := s.callee.pkgPath, meth := s.callee.name }, ?_, ?_, ?_⟩
+      · simp [entryCids, factsOf, hform, hk]
+      · simp [possibleCallees, hform]
+      · intro sp hsp
+        have h2 := (hs sp hsp).2
+        have hrecv : sp.recv = "" := by
+          rcases h2 with h | h
+          · exact h
+          · rw [hform] at h; cases h
+        apply matches_congr
+        · intro f hf
+          simp only [specFields, List.mem_cons, List.not_mem_nil, or_false] at hf
+          rcases hf with rfl | rfl | rfl | rfl | rfl | rfl | rfl <;>
+            simp [CodeId.get, truthCid, hrecv, (hs sp hsp).1]
+        · rfl
+  obtain ⟨cid, hc, hp, hm⟩ := key
+  unfold isEntry
+  rw [hc, any_single hok]
+  simp only [ShouldIdentify, SpecMatches, hp, List.mem_cons, List.not_mem_nil, or_false, exists_eq_left]
+  constructor
+  · rintro ⟨sp, hsp, h⟩; exact ⟨sp, hsp, (hm sp hsp).1 h⟩
+  · rintro ⟨sp, hsp, h⟩; exact ⟨sp, hsp, (hm sp hsp).2 h⟩
+
+/-- the empty specification compiles and matches every identifier of kind "" -/
+theorem specsOk_empty : specsOk [({} : CodeId)] = true := by
+  simp [specsOk, specOk, compiledFields, CodeId.get, parse_nil]
+
+theorem matches_empty (cid : CodeId) (hk : cid.kind = "") : Matches {} cid :=
+  ⟨fun f _ => .inl (by cases f <;> rfl), hk.symm⟩
+
+/-- a deferred direct call of `p.f` inside `p.main` -/
+def deferSite : Site :=
+  { form := .staticFn, kind := .defer, parent := "p.main", instr := "defer f()", callee := { pkgPath := "p", name := "f" } }
+
+/-- **The full statement is false on the current code**: a `defer f()` (or `go f()`) is not an entry point for any
+specification, not even the one that matches everything (replayed on the real tool: finding C04.01). -/
+theorem isEntry_iff_false : ¬ isEntry_iff_statement := by
+  intro h
+  have h1 := (h [{}] deferSite specsOk_empty).2
+    ⟨deferSite.callee, by simp [possibleCallees, deferSite], {}, by simp, matches_empty _ rfl⟩
+  have h0 : isEntry [{}] deferSite = false := by
+    simp [isEntry, entryCids, factsOf, deferSite]
+  rw [h0] at h1
+  exact Bool.noConfusion h1
+
+/-- invoke-mode entry points carry the SSA register of the interface value as receiver (finding C04.02/03) -/
+def invokeSite : Site :=
+  { form := .invoke, kind := .call, parent := "p.main", instr := "invoke t3.Get()", reg := "t3",
+    callee := { pkgPath := "p/lib", name := "Get", recv := "Getter" }, ifaceType := "p/lib.Getter" }
+
+example : entryCids true (factsOf invokeSite) = [{ ctx := "p.main", pkg := "p/lib", meth := "Get", recv := "t3" }] := by
+  decide
+
+/-- calls through function values are identified only by alias identifiers `{Package: "package <path>"}` without
+context (findings C04.04/05) -/
+def funcValueSite : Site :=
+  { form := .funcValue, kind := .call, parent := "p.main", instr := "t6()", reg := "t6",
+    callee := { pkgPath := "", name := "" }, impls := [{ pkgPath := "p", name := "source" }] }
+
+example : entryCids true (factsOf funcValueSite) = [{ pkg := "package p", meth := "source" }] := by decide
+
+/-- bound methods, method expressions and generic instances yield no identifier at the call (the wrapper has no
+package); the call inside the `$bound` / `$thunk` wrapper is the one that is identified -/
+def boundSite : Site :=
+  { form := .boundMethod, kind := .call, parent := "p.main", instr := "t7()", reg := "t7",
+    callee := { pkgPath := "p", name := "Src", recv := "T" }, wrapperName := "Src$bound" }
+
+example : entryCids true (factsOf boundSite) = [] := by decide
+
+/-- **Full statement** (sinks, sanitizers, validators on a call with a resolved callee). -/
+def isSink_iff_statement : Prop :=
+  ∀ (specs : List CodeId) (s : Site) (c : Fn), specsOk specs = true → c ∈ possibleCallees s →
+    (isSink specs s c = true ↔ ∃ sp ∈ specs, SpecMatches sp c s)
+
+/-- On the current code: every `Call`, `Go` and `Defer` of a statically known function or method, every
+specification (context, package, method, receiver and value-match). -/
+theorem isSink_iff_partial (specs : List CodeId) (s : Site) (c : Fn) (hok : specsOk specs = true)
+    (hd : sinkDomain s c = true) : isSink specs s c = true ↔ ∃ sp ∈ specs, SpecMatches sp c s := by
+  simp only [sinkDomain, Bool.and_eq_true, beq_iff_eq, Bool.or_eq_true] at hd
+  obtain ⟨hf, rfl⟩ := hd
+  have hc : sinkCids (factsOf s) (some s.callee.pkgPath) = [truthCid s s.callee] := by
+    rcases hf with ⟨hform, hr⟩ | hform
+    · simp [sinkCids, factsOf, hform, truthCid, hr]
+    · simp [sinkCids, factsOf, hform, truthCid]
+  unfold isSink
+  rw [hc, any_single hok]
+  rfl
+
+/-- call-argument nodes: the call node, then (callee summarised) the callee as a bare function -/
+theorem isSinkArg_iff_partial (specs : List CodeId) (s : Site) (c : Fn) (full : String) (hasSummary : Bool)
+    (hok : specsOk specs = true) (hd : argDomain specs s c hasSummary = true) :
+    ((argCids (factsOf s) (some (c, full)) hasSummary).any fun cid => specs.any fun sp => matchB sp cid) = true ↔
+      ∃ sp ∈ specs, SpecMatches sp c s := by
+  simp only [argDomain, Bool.and_eq_true, Bool.or_eq_true, Bool.not_eq_true', List.all_eq_true, beq_iff_eq] at hd
+  obtain ⟨hsd, hsum⟩ := hd
+  have hsink := isSink_iff_partial specs s c hok hsd
+  unfold isSink at hsink
+  cases hasSummary with
+  | false =>
+    simpa [argCids] using hsink
+  | true =>
+    have hall : ∀ sp ∈ specs, sp.ctx = "" ∧ sp.recv = "" ∧ sp.vmatch = "" := by
+      rcases hsum with h | h
+      · cases h
+      · intro sp hsp; have := h sp hsp; exact ⟨this.1.1, this.1.2, this.2⟩
+    have hfn : ([fnCid c full].any fun cid => specs.any fun sp => matchB sp cid) = true ↔ ∃ sp ∈ specs, SpecMatches sp c s := by
+      rw [any_single hok]
+      constructor
+      · rintro ⟨sp, hsp, h⟩
+        refine ⟨sp, hsp, (matches_congr (c1 := fnCid c full) (c2 := truthCid s c) ?_ rfl).1 h⟩
+        intro f hf
+        obtain ⟨h1, h2, h3⟩ := hall sp hsp
+        simp only [specFields, List.mem_cons, List.not_mem_nil, or_false] at hf
+        rcases hf with rfl | rfl | rfl | rfl | rfl | rfl | rfl <;> simp [CodeId.get, truthCid, fnCid, h1, h2, h3]
+      · rintro ⟨sp, hsp, h⟩
+        refine ⟨sp, hsp, (matches_congr (c1 := fnCid c full) (c2 := truthCid s c) ?_ rfl).2 h⟩
+        intro f hf
+        obtain ⟨h1, h2, h3⟩ := hall sp hsp
+        simp only [specFields, List.mem_cons, List.not_mem_nil, or_false] at hf
+        rcases hf with rfl | rfl | rfl | rfl | rfl | rfl | rfl <;> simp [CodeId.get, truthCid, fnCid, h1, h2, h3]
+    simp only [argCids, Option.map_some, List.any_append, Bool.or_eq_true, hsink, hfn, or_self]
+
+/-- interface calls as sinks carry the package-qualified interface type as receiver, static calls the bare type
+name (findings C04.09/10) -/
+def invokeSinkSite : Site :=
+  { form := .invoke, kind := .go, parent := "p.main", instr := "go invoke t3.Put(x)", reg := "t3",
+    callee := { pkgPath := "p/lib", name := "Put", recv := "Putter" }, ifaceType := "p/lib.Putter" }
+
+example : sinkCids (factsOf invokeSinkSite) none =
+    [{ ctx := "p.main", pkg := "p/lib", meth := "Put", recv := "p/lib.Putter", vmatch := "go invoke t3.Put(x)" }] := by
+  decide
+
+/-- **Kinds** (types, fields, field stores, channel receives): a location is selected exactly when some specification
+matches (declaring package name, Go spelling of the type, field, kind of access) — for every type shape. -/
+theorem kindSelects_iff (specs : List CodeId) (n : NodeFacts) (hok : specsOk specs = true) :
+    kindSelects specs n = true ↔ ShouldSelect specs n := by
+  unfold kindSelects ShouldSelect
+  rw [nodeCids_spec]
+  cases hd : n.ty.decl with
+  | none => simp
+  | some p =>
+    simp only [any_single hok, Option.some.injEq, exists_eq_left']
+
+/-- `FindEltTypePackage` is right for every type shape -/
+theorem eltTypePackage_eq (t : Ty) : eltTypePackage t id = t.decl.map fun p => (p, t.render) :=
+  eltTypePackage_spec t id
+
+example : eltTypePackage (.chan (.pointer (.named "lib" "T"))) id = some ("lib", "chan *T") := by decide
+example : eltTypePackage (.pointer (.array 3 (.named "lib" "T"))) id = some ("lib", "*[3]T") := by decide
+example : eltTypePackage (.pointer (.basic "int")) id = none := by decide
+/-- a field store is selected only by kind "store", a receive only by "channel receive" (identifier kinds) -/
+example : (nodeCids { nk := .fieldStore, parent := "p.f", ty := .pointer (.named "lib" "T"), field := "G" }).map (·.kind) = ["store"] := by decide
+example : (nodeCids { nk := .chanRecv, parent := "p.f", ty := .chan (.named "lib" "T") }).map (·.kind) = ["channel receive"] := by decide
 
 end Argot.C04
